@@ -17,7 +17,7 @@ def run_fsearch(ctx):
 def run_fleaf(ctx):
     """Engine C, F-LEAF: _bucket_set against the whole-view contract (cvc/fleaf.py); integer-keyed units."""
     fams = ["II", "LF", "IO"] if ctx.tier == "quick" else FSEARCH_ALL
-    res = ctx.cvc(fams, ["F-LEAF"], functions=["_bucket_set", "_bucket_get", "bucket_append"])
+    res = ctx.cvc(fams, ["F-LEAF"], functions=["_bucket_set", "_bucket_get", "bucket_append", "_BTree_get"])
     from lib import replay
     replay.replay_fleaf(ctx, res)
     return fams
